@@ -436,6 +436,49 @@ func intPredFalseSet(fn *ssa.Function, lo, hi int64) ([][2]int64, bool) {
 		}
 		return v == ssa.Value(prm)
 	}
+	type iv = [2]int64
+	// split: the parts of [l,h] on which a comparison of the parameter with a constant is true / false
+	split := func(cond ssa.Value, l, h int64) (ts, fs []iv, ok bool) {
+		bo, isB := cond.(*ssa.BinOp)
+		if !isB {
+			return nil, nil, false
+		}
+		x, y, op := bo.X, bo.Y, bo.Op
+		if !isP(x) {
+			x, y = y, x
+			switch op {
+			case token.LSS:
+				op = token.GTR
+			case token.GTR:
+				op = token.LSS
+			case token.LEQ:
+				op = token.GEQ
+			case token.GEQ:
+				op = token.LEQ
+			}
+		}
+		c, isC := constInt(y)
+		if !isP(x) || !isC {
+			return nil, nil, false
+		}
+		switch op {
+		case token.LSS:
+			ts, fs = []iv{{l, min64(h, c-1)}}, []iv{{max64(l, c), h}}
+		case token.LEQ:
+			ts, fs = []iv{{l, min64(h, c)}}, []iv{{max64(l, c+1), h}}
+		case token.GTR:
+			ts, fs = []iv{{max64(l, c+1), h}}, []iv{{l, min64(h, c)}}
+		case token.GEQ:
+			ts, fs = []iv{{max64(l, c), h}}, []iv{{l, min64(h, c-1)}}
+		case token.EQL:
+			ts, fs = []iv{{max64(l, c), min64(h, c)}}, []iv{{l, min64(h, c-1)}, {max64(l, c+1), h}}
+		case token.NEQ:
+			fs, ts = []iv{{max64(l, c), min64(h, c)}}, []iv{{l, min64(h, c-1)}, {max64(l, c+1), h}}
+		default:
+			return nil, nil, false
+		}
+		return ts, fs, true
+	}
 	var out [][2]int64
 	okAll := true
 	var run func(b *ssa.BasicBlock, from *ssa.BasicBlock, l, h int64, depth int)
@@ -459,8 +502,24 @@ func intPredFalseSet(fn *ssa.Function, lo, hi int64) ([][2]int64, bool) {
 					}
 				}
 			}
+			neg := false
+			if un, ok := rv.(*ssa.UnOp); ok && un.Op == token.NOT {
+				rv, neg = un.X, true
+			}
+			if _, fsv, ok := split(rv, l, h); ok {
+				// the answer is the comparison itself
+				if neg {
+					fsv, _, _ = split(rv, l, h)
+				}
+				for _, i := range fsv {
+					if i[0] <= i[1] {
+						out = append(out, i)
+					}
+				}
+				return
+			}
 			c, ok := rv.(*ssa.Const)
-			if !ok || c.Value == nil || !isBool(c.Type()) {
+			if neg || !ok || c.Value == nil || !isBool(c.Type()) {
 				okAll = false
 				return
 			}
@@ -468,47 +527,8 @@ func intPredFalseSet(fn *ssa.Function, lo, hi int64) ([][2]int64, bool) {
 				out = append(out, [2]int64{l, h})
 			}
 		case *ssa.If:
-			bo, ok := t.Cond.(*ssa.BinOp)
+			ts, fs, ok := split(t.Cond, l, h)
 			if !ok {
-				okAll = false
-				return
-			}
-			x, y, op := bo.X, bo.Y, bo.Op
-			if !isP(x) {
-				x, y = y, x
-				switch op {
-				case token.LSS:
-					op = token.GTR
-				case token.GTR:
-					op = token.LSS
-				case token.LEQ:
-					op = token.GEQ
-				case token.GEQ:
-					op = token.LEQ
-				}
-			}
-			c, isC := constInt(y)
-			if !isP(x) || !isC {
-				okAll = false
-				return
-			}
-			// true side / false side as interval lists
-			type iv = [2]int64
-			var ts, fs []iv
-			switch op {
-			case token.LSS:
-				ts, fs = []iv{{l, min64(h, c-1)}}, []iv{{max64(l, c), h}}
-			case token.LEQ:
-				ts, fs = []iv{{l, min64(h, c)}}, []iv{{max64(l, c+1), h}}
-			case token.GTR:
-				ts, fs = []iv{{max64(l, c+1), h}}, []iv{{l, min64(h, c)}}
-			case token.GEQ:
-				ts, fs = []iv{{max64(l, c), h}}, []iv{{l, min64(h, c-1)}}
-			case token.EQL:
-				ts, fs = []iv{{max64(l, c), min64(h, c)}}, []iv{{l, min64(h, c-1)}, {max64(l, c+1), h}}
-			case token.NEQ:
-				fs, ts = []iv{{max64(l, c), min64(h, c)}}, []iv{{l, min64(h, c-1)}, {max64(l, c+1), h}}
-			default:
 				okAll = false
 				return
 			}
